@@ -81,6 +81,24 @@ pub fn check_body(m: &str, inputs: &[String], glr: bool) -> String {
             Err(e) => format!("ERR {{}}", e.to_pos_str().replace('\n', " ")),
         }});
         println!("P {{}} {{}}", i, r.unwrap_or("PANIC".to_string()));
+        // the other trees of a small forest, each replayed through a fresh builder
+        let others = std::panic::catch_unwind(|| {{
+            let mut out: Vec<String> = vec![];
+            if let Ok(f) = {parser}::new().parse(input) {{
+                let n = f.solutions();
+                if n >= 2 && n <= 6 {{
+                    for k in 1..n {{
+                        let mut b = DefaultBuilder::new();
+                        out.push(format!("Q {{}} {{}} OK {{}} {{:?}}", i, k, n, f.get_tree(k).unwrap().build(&mut b)));
+                    }}
+                }}
+            }}
+            out
+        }});
+        match others {{
+            Ok(o) => for l in o {{ println!("{{}}", l); }},
+            Err(_) => println!("Q {{}} 1 PANIC", i),
+        }}
     }}"#
                 )
                 .unwrap();
